@@ -36,7 +36,7 @@ def _stages(tier):
         dict(name='enum-opt', harness='h_read', flavour='opt', sub='enum', cases=ENUM_CASES, chunks_per_job=6, **hang),
         dict(name='mut-opt', harness='h_read', flavour='opt', sub='mut', cases=400000 if th else 21000, **hang),
         dict(name='enum-complete', harness='h_read', flavour='asan', cases=1, custom='c13_stages:enum_complete'),
-        dict(name='libfuzzer', harness='fz_read', flavour='fuzz', cases=600000 if th else 30000, custom='c13_stages:libfuzzer'),
+        dict(name='libfuzzer', harness='fz_read', flavour='fuzz', cases=400000 if th else 12000, custom='c13_stages:libfuzzer'),
     ]
     if th:
         st += [
